@@ -27,6 +27,10 @@ CALL_EXCEPTIONS = {
 }
 
 
+import os
+ONCE = os.environ.get('C11_ONCE', '1') == '1'   # a faulted site fails the first time it runs; later runs may succeed
+
+
 class Dom(ValueDomain):
     def __init__(self, fn, target):
         super().__init__(fn)
@@ -46,6 +50,8 @@ class Dom(ValueDomain):
 
     def call_value(self, call, st):
         if call is self.target:
+            if ONCE and st.has("$again"):
+                return TOP
             return NONZERO
         if call.get("fn") == "ncmpii_error_mpi2nc":
             return NONZERO
@@ -53,6 +59,8 @@ class Dom(ValueDomain):
 
     def on_call(self, call, st, blk, idx):
         if call is self.target:
+            if ONCE and st.has("$f"):
+                return st.set("$again", ONE)
             return st.set("$f", ONE)
         if call.get("fn") == "MPI_Allreduce":
             # MIN-reduction of a failing (negative) NC status is failing on every rank
